@@ -742,3 +742,153 @@ Proof.
   destruct (Hall j Hj) as (r & Hs & Hr). rewrite Hr, to_Z_resize. rewrite Hd in Hs.
   rewrite (sparse_mux_default _ _ _ _ (Hnd j _) Htags Hs Hl). reflexivity.
 Qed.
+
+(* ---------- enum_mux corollaries ---------- *)
+Lemma enum_vals_In table k v : In (k, v) (enum_vals table) <-> In (Some k, v) table.
+Proof.
+  unfold enum_vals. rewrite in_flat_map. split.
+  - intros ([[k'|] v'] & Hin & H); cbn [fst snd] in H; [|destruct H].
+    destruct H as [E|[]]. injection E as <- <-. exact Hin.
+  - intros H. exists (Some k, v). split; [exact H|]. left. reflexivity.
+Qed.
+
+Theorem enum_mux_listed : forall cntrl members table dflt strict r k v,
+  enum_mux cntrl members table dflt strict = Some r ->
+  NoDup (map fst (enum_vals table)) ->
+  tags_ok (sparse_fill (length cntrl) (enum_vals table) (enum_default table dflt)) ->
+  In (Some k, v) table -> to_Z cntrl = k -> to_Z (wbits r) = to_Z (wbits v).
+Proof.
+  intros cntrl members table dflt strict r k v H Hnd Htags Hin Hk.
+  destruct (enum_mux_spec _ _ _ _ _ _ H) as [Hs _].
+  apply (sparse_mux_listed _ _ _ _ k v Hnd Htags Hs); [apply enum_vals_In; exact Hin|exact Hk].
+Qed.
+
+Theorem enum_mux_default : forall cntrl members table dflt strict r d,
+  enum_mux cntrl members table dflt strict = Some r ->
+  NoDup (map fst (enum_vals table)) ->
+  enum_default table dflt = Some d ->
+  tags_ok (sparse_fill (length cntrl) (enum_vals table) (Some d)) ->
+  lookup (to_Z cntrl) (enum_vals table) = None -> to_Z (wbits r) = to_Z (wbits d).
+Proof.
+  intros cntrl members table dflt strict r d H Hnd Hd Htags Hl.
+  destruct (enum_mux_spec _ _ _ _ _ _ H) as [Hs _]. rewrite Hd in Hs.
+  apply (sparse_mux_default _ _ _ _ Hnd Htags Hs Hl).
+Qed.
+
+(* ---------- no spurious errors ---------- *)
+Theorem prioritized_mux_ok : forall sels vals,
+  length sels = length vals -> vals <> [] -> prioritized_mux sels vals <> None.
+Proof.
+  intros sels vals. unfold prioritized_mux.
+  assert (G : forall fuel sels vals, (length vals < fuel)%nat -> length sels = length vals -> vals <> [] ->
+              pmux_rec fuel sels vals <> None).
+  { clear. induction fuel as [|fuel IH]; intros sels vals Hf Hl Hne; [lia|].
+    cbn [pmux_rec]. rewrite Hl, Nat.eqb_refl. cbn [negb].
+    destruct vals as [|v0 [|v1 vr]]; [congruence|discriminate|].
+    set (vals := v0 :: v1 :: vr) in *. set (half := Nat.div (length vals) 2).
+    assert (Hlen2 : (2 <= length vals)%nat) by (cbn; lia).
+    assert (Hh : (1 <= half /\ half < length vals)%nat).
+    { unfold half. split; [apply Nat.div_le_lower_bound; lia|apply Nat.div_lt; lia]. }
+    assert (H1 : pmux_rec fuel (firstn half sels) (firstn half vals) <> None).
+    { apply IH.
+      - rewrite firstn_length. lia.
+      - rewrite !firstn_length. lia.
+      - intro E. apply (f_equal (@length _)) in E. rewrite firstn_length in E. cbn [length] in E. lia. }
+    assert (H2 : pmux_rec fuel (skipn half sels) (skipn half vals) <> None).
+    { apply IH.
+      - rewrite skipn_length. lia.
+      - rewrite !skipn_length. lia.
+      - intro E. apply (f_equal (@length _)) in E. rewrite skipn_length in E. cbn [length] in E. lia. }
+    destruct (pmux_rec fuel (firstn half sels) (firstn half vals)); [|congruence].
+    destruct (pmux_rec fuel (skipn half sels) (skipn half vals)); [|congruence]. discriminate. }
+  intros Hl Hne. apply G; [lia|exact Hl|exact Hne].
+Qed.
+
+Lemma keys_ok_intro maxv (vals : list (Z * wire)) :
+  (forall k v, In (k, v) vals -> 0 <= k <= maxv) -> keys_ok maxv vals = true.
+Proof.
+  intros H. unfold keys_ok. apply forallb_forall. intros [k v] Hin. specialize (H k v Hin). cbn [fst]. lia.
+Qed.
+
+Lemma sparse_rec_ok : forall n sel vals,
+  vals <> [] -> NoDup (map fst vals) ->
+  (forall k v, In (k, v) vals -> 0 <= k <= 2 ^ Z.of_nat n - 1) ->
+  (1 <= n)%nat -> sparse_rec n sel vals <> None.
+Proof.
+  induction n as [|n IH]; intros sel vals Hne Hnd Hk Hn; [lia|].
+  cbn [sparse_rec]. rewrite (keys_ok_intro _ _ Hk). cbn [negb].
+  destruct vals as [|kv0 [|kv1 vr]]; [congruence|discriminate|].
+  set (vals := kv0 :: kv1 :: vr) in *.
+  destruct n as [|n'].
+  - (* keys are exactly 0 and 1 *)
+    destruct kv0 as [k0 v0], kv1 as [k1 v1].
+    assert (H0 : 0 <= k0 <= 1) by (apply (Hk k0 v0); left; reflexivity).
+    assert (H1 : 0 <= k1 <= 1) by (apply (Hk k1 v1); right; left; reflexivity).
+    assert (Hd : k0 <> k1).
+    { inversion Hnd as [|? ? Hni _]; subst. cbn [map fst] in Hni. intro E. apply Hni. left. symmetry. exact E. }
+    assert (L0 : exists v, In (0, v) vals).
+    { destruct (Z.eq_dec k0 0) as [->|]; [exists v0; left; reflexivity|].
+      exists v1. right. left. f_equal. lia. }
+    assert (L1 : exists v, In (1, v) vals).
+    { destruct (Z.eq_dec k0 1) as [->|]; [exists v0; left; reflexivity|].
+      exists v1. right. left. f_equal. lia. }
+    destruct L0 as [a La]. destruct L1 as [b Lb].
+    rewrite (In_lookup _ _ _ Hnd La), (In_lookup _ _ _ Hnd Lb). discriminate.
+  - set (n := S n') in *. remember (2 ^ Z.of_nat n) as half eqn:Ehalf.
+    assert (Hpow : 2 ^ Z.of_nat (S n) = 2 * half) by (rewrite Ehalf, Nat2Z.inj_succ, Z.pow_succ_r; lia).
+    pose proof (nodup_first half vals Hnd) as Nf. pose proof (nodup_second half vals Hnd) as Ns.
+    pose proof (in_first half vals) as If. pose proof (in_second half vals) as Is.
+    remember (filter (fun kv : Z * wire => fst kv <? half) vals) as first eqn:Efirst.
+    remember (map (fun kv : Z * wire => (fst kv - half, snd kv))
+                  (filter (fun kv : Z * wire => half <=? fst kv) vals)) as second eqn:Esecond.
+    assert (Kf : forall k v, In (k, v) first -> 0 <= k <= half - 1).
+    { intros k v Hin. apply If in Hin. destruct Hin as [Hin Hlt]. specialize (Hk k v Hin). lia. }
+    assert (Ks : forall k v, In (k, v) second -> 0 <= k <= half - 1).
+    { intros k v Hin. apply Is in Hin. destruct Hin as [Hin Hge]. specialize (Hk _ v Hin). lia. }
+    assert (Hcover : first = [] -> second <> []).
+    { intros E Es. destruct kv0 as [k0 v0].
+      assert (Hin : In (k0, v0) vals) by (left; reflexivity).
+      destruct (Z.lt_ge_cases k0 half) as [Hlt|Hge].
+      - assert (Hf : In (k0, v0) first) by (apply If; split; assumption). rewrite E in Hf. destruct Hf.
+      - assert (Hs : In (k0 - half, v0) second).
+        { apply Is. replace (k0 - half + half) with k0 by lia. split; [exact Hin|lia]. }
+        rewrite Es in Hs. destruct Hs. }
+    clear Efirst Esecond.
+    destruct first as [|f0 fr].
+    + apply IH; [apply Hcover; reflexivity|exact Ns|exact Ks|lia].
+    + destruct second as [|s0 sr].
+      * apply IH; [discriminate|exact Nf|exact Kf|lia].
+      * assert (H1 : sparse_rec n (pyslice sel None (Some (-1))) (f0 :: fr) <> None)
+          by (apply IH; [discriminate|exact Nf|exact Kf|lia]).
+        assert (H2 : sparse_rec n (pyslice sel None (Some (-1))) (s0 :: sr) <> None)
+          by (apply IH; [discriminate|exact Ns|exact Ks|lia]).
+        destruct (sparse_rec n (pyslice sel None (Some (-1))) (f0 :: fr)); [|congruence].
+        destruct (sparse_rec n (pyslice sel None (Some (-1))) (s0 :: sr)); [|congruence]. discriminate.
+Qed.
+
+(* sparse_mux does not raise when the keys are distinct and in range and there is
+   at least one value or a default *)
+Theorem sparse_mux_ok : forall sel vals dflt,
+  (1 <= length sel)%nat -> NoDup (map fst vals) ->
+  (forall k v, In (k, v) vals -> 0 <= k <= 2 ^ Z.of_nat (length sel) - 1) ->
+  (vals <> [] \/ dflt <> None) ->
+  sparse_mux sel vals dflt <> None.
+Proof.
+  intros sel vals dflt Hn Hnd Hk Hne. unfold sparse_mux.
+  destruct dflt as [d|].
+  - destruct (sparse_fill_spec (length sel) vals d Hnd) as (Hnd' & Hin1 & Hin2 & Hin3).
+    apply sparse_rec_ok; [|exact Hnd'| |exact Hn].
+    + destruct vals as [|[k0 v0] vr].
+      * intro E. assert (Hz : In (0, d) (sparse_fill (length sel) [] (Some d))).
+        { apply Hin2; [pose proof (pow2_pos (Z.of_nat (length sel))); lia|reflexivity]. }
+        rewrite E in Hz. destruct Hz.
+      * intro E. assert (Hz : In (k0, v0) (sparse_fill (length sel) ((k0, v0) :: vr) (Some d)))
+          by (apply Hin1; left; reflexivity).
+        rewrite E in Hz. destruct Hz.
+    + intros k v Hin. unfold sparse_fill in Hin. apply in_app_iff in Hin. destruct Hin as [Hin|Hin].
+      * apply (Hk k v Hin).
+      * apply in_map_iff in Hin. destruct Hin as (i & E & Hi). injection E as <- _.
+        apply filter_In in Hi. destruct Hi as [Hi _]. apply zrange_In in Hi. rewrite pow2_nat_Z in Hi. lia.
+  - cbn [sparse_fill]. apply sparse_rec_ok; [|exact Hnd|exact Hk|exact Hn].
+    destruct Hne as [H|H]; [exact H|congruence].
+Qed.
